@@ -104,14 +104,15 @@ type c15V struct {
 
 // c15J is the context of one job.
 type c15J struct {
-	r    *mon.R
-	env  *c15Env
-	s    *c15Suite
-	rng  *gen.Rng
-	st   cipher.Stream
-	id   string
-	viol []c15V
-	samp []c15S
+	r         *mon.R
+	env       *c15Env
+	s         *c15Suite
+	rng       *gen.Rng
+	st        cipher.Stream
+	id        string
+	pairScale kyber.Scalar // eq33pair: factor of the second coordinated slot, exported by the tampering prover
+	viol      []c15V
+	samp      []c15S
 }
 
 type c15S struct {
